@@ -32,7 +32,7 @@ CHECKS["C02"] = {
     "level": "exploration",
     "exhaustive_claim": True,
     "technique": "exhaustive enumeration of arrival permutations x reader schedules for small n + rapid sampling for large n / extreme sequence numbers; reference-model oracle",
-    "level_text": "All n! arrival orders for n<=6 frames (n<=8 in thorough) x closing frame absent/last x all 2^n reader-drain schedules are executed against the in-package stream buffer and compared with a sequence-order model after every arrival; larger n, big payloads and sequence numbers around 2^32/2^63/2^64 are sampled.",
+    "level_text": "All n! arrival orders for n<=6 frames (n<=8 in thorough) x closing frame absent/last x all 2^n reader-drain schedules are executed against the in-package stream buffer and compared with a sequence-order model after every arrival; larger n, big payloads and sequence numbers around 2^32/2^63/2^64 are sampled. Arrival through several connections at once is explored by a concurrent sub-check: a backlog of 1..3000 frames is parked, then the gap filler and the frames that follow (data or the closing frame) are released together from 2-4 goroutines on real cores; the reader must get the payloads in sequence order and end-of-stream only after all of them.",
     "level_note": "White-box use of streamBuffer.nextRecvSeq (to reach high sequence numbers) and of the pipe's buffered length (to drain without blocking). Frames are delivered exactly once, the closing frame has the highest number (what a sender produces).",
     "rule": "Exhaustive: every permutation of n<=6 (thorough 8) frames, closing frame absent or numbered last, every subset of arrivals after which the reader drains; the receive buffer is reused and overwritten between arrivals. "
             "Sampled: rapid-drawn n<=200, order kinds random/reverse/nearly-sorted/rotate, sizes 1..40000, base seq in {0,2^32-n/2,2^63-n/2,2^64-n,...}. Non-trivial = arrival order differs from sequence order; distinct = distinct permutations (exhaustive) / distinct scenarios (sampled).",
@@ -47,7 +47,7 @@ CHECKS["C02"] = {
 CHECKS["C01"] = {
     "level": "exploration",
     "technique": "rapid-generated operation sequences (write/deliver/read per connection and segment) interpreted on a real Session pair over a test-owned network inside a synctest bubble; PRF-tagged byte-stream reference model",
-    "level_text": "Generated interleavings of writes, per-connection deliveries (whole record / part of a record) and reads on a real client/server Session pair; cross-connection overtaking and TCP segmentation are generated values, not scheduling luck; every byte read is checked against a per-stream PRF model and final equality is required.",
+    "level_text": "Generated interleavings of writes, per-connection deliveries (whole record / part of a record) and reads on a real client/server Session pair; cross-connection overtaking and TCP segmentation are generated values, not scheduling luck; every byte read is checked against a per-stream PRF model and final equality is required. The 'keeps working' clause is decided in real time: connections with bounded buffers and a gate per direction, batches of stream closes and writes larger than the buffers issued on both sides with the gates shut, gates opened in generated orders; every call must return, a canary stream nobody closes must carry its data both ways and a fresh stream must work - a stall is declared only when a progress counter stood still for 10 s and two goroutine dumps a second apart show every goroutine inside Cloak blocked at the same place.",
     "level_note": "Goroutine schedules between quiescence points are the Go runtime's; only the client opens streams (as every real caller does); the network never drops or duplicates bytes.",
     "rule": "rapid draws (method, 1..8 conns or singleplex, key, switchboard seed) and up to 150 (900) ops over 1..6 (300) streams; non-trivial = some frame was handed to the receiver while a lower-numbered frame of the same stream was still undelivered on another connection, or a record was delivered in >=2 segments; distinct = distinct scenarios.",
     "assumptions": ["the in-memory network delivers each byte exactly once in per-connection order", "only the client side opens streams"],
@@ -63,7 +63,7 @@ CHECKS["C01"] = {
 CHECKS["C03"] = {
     "level": "exploration",
     "technique": "rapid-generated write/deliver/read/close sequences on a real Session pair over a test-owned network (synctest bubble); per-stream prefix/equality model derived from the wire tap",
-    "level_text": "Generated scripts of writes, per-connection deliveries and closes by either or both sides; whether the closing notice overtakes data on another connection is a generated value. After every step and after the final drain the readers' bytes/errors are compared with a model computed from the tap (what had been handed over, whether the peer's close is next in line).",
+    "level_text": "Generated scripts of writes, per-connection deliveries and closes by either or both sides; whether the closing notice overtakes data on another connection is a generated value; 40 % of the multi-connection scripts contain the adaptive 'raceclose' delivery: a one-byte frame, a run of 4-24 full frames and the close are written, everything except the first frame and the closing notice is delivered (the run parks in the reorder buffer), then the gap filler's connection and the closing notice are delivered in the same step, so one connection's goroutine flushes the backlog while another processes the close. After every step and after the final drain the readers' bytes/errors are compared with a model computed from the tap (what had been handed over, whether the peer's close is next in line).",
     "level_note": "Same trusted base as C01; a side's Close is issued only after its own writes returned (the statement is about bytes written before the close).",
     "rule": "rapid draws config (method, 1..8 conns or singleplex) and <=60 ops over 1..3 streams with a designated closer (client, server or both) per stream; non-trivial = the stream-closing frame was delivered while a lower-numbered data frame of that stream was still undelivered on another connection; distinct = distinct scenarios.",
     "assumptions": ["only the client opens streams", "network delivers bytes exactly once, in order per connection"],
@@ -76,7 +76,7 @@ CHECKS["C03"] = {
 CHECKS["C12"] = {
     "level": "fault_enumeration",
     "technique": "rapid-generated base scenarios; a connection reset (preceded by a partial delivery cutting a record in a chosen offset class) or a session Close (optionally racing with other calls) is injected at EVERY operation position of each base scenario; teardown oracle at quiescence (synctest bubble)",
-    "level_text": "For each generated base scenario the fault is enumerated over every operation boundary and, per fault spec, over connection x offset class (record boundary, TLS header, frame header, payload, tag); after each injection the interpreter drains the network and checks prefix-only delivery, that every parked Read/Write/Accept/Close returned, that OpenStream is refused, that every connection end was closed, and (before the fault) that the active-stream counter equals the model count at every quiescent step; inactivity-timer phases are explored on the virtual clock. A bubble that ends up permanently stuck with a goroutine queued on a lock (which stops the virtual clock) is recognised by a real-time watchdog from two identical goroutine dumps and judged by the same post-fault rules evaluated on the harness' bookkeeping (violation only if a fault or session close had been injected and a blocked call has not returned or a connection was not closed); otherwise exit 2. At layer 3 (real client and server code over the test network) connection attempts fail in six ways during session set-up, including a reply that fails only after sibling connections have joined and a sibling whose reply is delayed past that failure; the established session must either work on six probe streams or be closed.",
+    "level_text": "For each generated base scenario the fault is enumerated over every operation boundary and, per fault spec, over connection x offset class (record boundary, TLS header, frame header, payload, tag); after each injection the interpreter drains the network and checks prefix-only delivery, that every parked Read/Write/Accept/Close returned, that OpenStream is refused, that every connection end was closed, and (before the fault) that the active-stream counter equals the model count at every quiescent step; inactivity-timer phases are explored on the virtual clock. A bubble that ends up permanently stuck with a goroutine queued on a lock (which stops the virtual clock) is recognised by a real-time watchdog from two identical goroutine dumps and judged by the same post-fault rules evaluated on the harness' bookkeeping (violation only if a fault or session close had been injected and a blocked call has not returned or a connection was not closed); otherwise exit 2. At layer 3 (real client and server code over the test network) connection attempts fail in six ways during session set-up, including a reply that fails only after sibling connections have joined and a sibling whose reply is delayed past that failure; the established session must either work on six probe streams or be closed. A real-time sub-check closes the session (Close on either side, connection reset) while 1..1064 peer-opened streams wait un-accepted: the teardown must complete, a late Accept must return, nothing may panic; the peer-initiated case with an overflowing accept queue is the recorded known finding F-C12f (excluded by construction: the application resumes accepting; reproduced once per run).",
     "level_note": "Schedules inside a step are the Go runtime's; under back pressure only one writer per stream is generated (a parked writer holds the stream mutex, which synctest cannot treat as durably blocked).",
     "rule": "base scenario: rapid-drawn config (ordered/unordered, 1..8 conns or singleplex, optional bounded buffers) and <=30 ops; faults: 1..3 specs x every position 0..len(ops). Non-trivial = fault strictly inside a record, or frames had arrived out of order before it, or a goroutine was parked in Read/Write at the fault; distinct = distinct scenarios (each standing for (len(ops)+1) x specs executions, counted in evaluations).",
     "assumptions": ["a reset is seen by both ends; EOF is seen after in-flight bytes were delivered (TCP-like)", "the code under test does not complete a teardown through a timer while other goroutines queue on its locks (wedge verdicts)"],
@@ -134,7 +134,7 @@ CHECKS["C11"] = {
     "level": "exploration",
     "exhaustive_claim": True,
     "technique": "exhaustive single-bit flips over whole messages of 5 small sizes (all header/tag bits + sampled payload bits for large ones) x 3 AEAD methods x padded/unpadded; rapid-generated multi-byte corruptions, truncations, extensions, foreign keys/methods and garbage against deobfuscate and a live Session; native go fuzzing in the thorough tier",
-    "level_text": "Every variant of a genuine message must be rejected by the codec and, fed to a live session, must leave stream table, counters and accept queue untouched while a following valid frame is still delivered in order; garbage of 0..20480 bytes must never panic under any method. Modifications confined to wire bytes 12/13 are the recorded known finding and are excluded by construction (executed, counted, reported).",
+    "level_text": "Every variant of a genuine message must be rejected by the codec and, fed to a live session, must leave stream table, counters and accept queue untouched while a following valid frame is still delivered in order; garbage of 0..20480 bytes must never panic under any method. A real-time sub-check hands the genuine frames of 1-6 streams to the session from 1-8 goroutines at once (the connections' receiving goroutines), interleaved with random bytes, bit-flipped, truncated, extended and foreign-key frames: every reader must get exactly its stream's bytes, no foreign stream may appear, nothing may stall or panic. Modifications confined to wire bytes 12/13 are the recorded known finding and are excluded by construction (executed, counted, reported).",
     "level_note": "Key and nonce space are sampled. The known finding F-C11 (bytes 12/13 unauthenticated) is listed in known_findings.json; any other accepted modification is a VIOLATION.",
     "rule": "Flips: for payload lengths 1,2,17,100,270 every bit of every byte position (padded seq 2 and unpadded seq 9), for 1500 and 16132 all 112 header bits, all 128 tag bits and 200 payload positions; x aes-256-gcm, chacha20-poly1305, aes-128-gcm. Random: rapid-drawn kind in {multi-byte xor, truncate 1..64, extend 1..64, other key, other method, garbage 0..20480 (all four methods), flip}. Every case non-trivial; distinct = distinct (method,size,position,bit) resp. scenarios.",
     "assumptions": ["x/crypto and crypto/aes AEAD implementations are correct"],
@@ -149,7 +149,7 @@ CHECKS["C11"] = {
 CHECKS["C20"] = {
     "level": "exploration",
     "technique": "rapid-generated option presence masks and values rendered both as JSON file and as key=value; string (with the \\= escapes of plugin hosts); oracle = table transcribed from README.md + cross-syntax equality; random strings for the no-crash part",
-    "level_text": "Each generated configuration is parsed through both front ends (results must be equal) and processed; every documented option (NumConn<=0, KeepAlive seconds, StreamTimeout default, Transport/BrowserSig selection observed through the transport actually created, CDN url, AlternativeNames filtering, encryption names) is compared with an independent transcription of the README; incomplete/invalid configurations must yield an error, arbitrary strings must not panic.",
+    "level_text": "Each generated configuration is parsed through both front ends (results must be equal) and processed; every documented option (NumConn<=0, KeepAlive seconds, StreamTimeout default, Transport/BrowserSig selection observed through the transport actually created, CDN url, AlternativeNames filtering, encryption names) is compared with an independent transcription of the README; incomplete/invalid configurations must yield an error, arbitrary strings must not panic. StreamTimeout is also checked in effect on the virtual clock: the value parsed from either syntax is handed to RouteTCP over a test network; a proxy connection whose first data comes before the limit must stay usable in both directions at any later time (up to 5x the period), one that stays silent longer must be closed.",
     "level_note": "The README transcription in harness/internal__client/c20_test.go (c20Table) is the trusted oracle; values containing ';', '\"' or '\\\\' are outside the option-string domain (the front end has no escaping for them once unescaped) and are not generated.",
     "rule": "rapid draws presence (p=0.4..0.95 per option) and representative values for the 19 options incl. NumConn in {-7,-1,0,1,2,4,8}, KeepAlive in {-5,0,1,15,30,3600}, mixed-case names, base64 keys with '=' padding, empty alternative names; every case is non-trivial (both syntaxes + processing); distinct = distinct (presence mask, escaping) pairs.",
     "assumptions": ["README.md client section is the specification"],
@@ -191,7 +191,7 @@ CHECKS["C05"] = {
 CHECKS["C06"] = {
     "level": "exploration",
     "technique": "rapid-generated client configurations; one real handshake per case (client Transport.Handshake <-> server dispatchConnection, direct and through a TLS-terminating CDN shim) in a synctest bubble; oracle = independent re-authentication of the tapped first packet + key equality",
-    "level_text": "For each generated (UID, proxy method 1..12 bytes, encryption method, session id incl. 0/2^31/2^32-1, ordered/unordered, browser signature, transport, server name incl. 'random', client clock offset inside the window) the client's returned key must equal the key of the session the server filed under exactly that UID and session id, and an independent server state must recover exactly the configured identity fields from the tapped first packet. A case opens 1, 2, 3 or 6 connections of the same session at the same time (bypass user, or database user whose authorisation query yields the processor until a second caller is inside): all must be given one key, the server must keep one session.",
+    "level_text": "For each generated (UID, proxy method 1..12 bytes, encryption method, session id incl. 0/2^31/2^32-1, ordered/unordered, browser signature, transport, server name incl. 'random', client clock offset inside the window) the client's returned key must equal the key of the session the server filed under exactly that UID and session id, and an independent server state must recover exactly the configured identity fields from the tapped first packet. 0-6 other clients (own UIDs and session ids) handshake in the same step and the identities recovered from all tapped first packets must equal the configured ones as a multiset, each client's session being filed under its own UID. A case opens 1, 2, 3 or 6 connections of the same session at the same time (bypass user, or database user whose authorisation query yields the processor until a second caller is inside): all must be given one key, the server must keep one session.",
     "level_note": "Clock offsets are generated with |offset| <= 178.999 s so that the truncation of the timestamp to whole seconds never reaches the window edge (edges belong to C07). The CDN is emulated by a crypto/tls terminator with a self-signed certificate.",
     "rule": "rapid draws the configuration tuple; every case is a full handshake (non-trivial); distinct = distinct (browser, transport, enc, flag, sid class, name class, method length) tuples.",
     "assumptions": ["utls builds ClientHellos as the real client does", "crypto/tls and gorilla/websocket are correct"],
@@ -231,7 +231,7 @@ CHECKS["C07"] = {
     "level": "exploration",
     "exhaustive_claim": True,
     "technique": "exhaustive single-bit flips of four genuine first packets (three browser ClientHellos + WebSocket GET) and rapid-generated multi-byte edits/truncations/extensions against AuthFirstPacket on a fresh replay cache (oracle: accept => identity fields, sealed block and ephemeral key equal the genuine ones, checked with an independent parser); exhaustive clock-offset sweep around both window edges; rapid-generated dispatch outcomes (user class x proxy method x key x transport x clock) and admin-gate cases on a real bolt-backed server in a synctest bubble",
-    "level_text": "Decides 'accept implies intact and timely' over every bit of real first packets, the strict two-sided 180 s window at 1 s resolution plus sub-second edges, and the observable outcome of dispatchConnection (handshake reply vs. relay to the redirect target) for bypass/admin/database users with good, exhausted, expired, deleted or unknown records, unknown proxy methods, wrong server key and both transports; the admin API must answer only for admin UID with session id 0. 168 first packets forged without the server's public key (small-order / non-canonical ephemeral keys 0, 1, order-8 points, p-1, p, p+1, with and without bit 255; identity block sealed under the secret a permissive X25519 would yield; TLS and WebSocket carriers) must all be rejected; genuine packets with extreme client clocks (2^31 .. 2^62, unit confusions, +-293 years) are decided with integer arithmetic.",
+    "level_text": "Decides 'accept implies intact and timely' over every bit of real first packets, the strict two-sided 180 s window at 1 s resolution plus sub-second edges, and the observable outcome of dispatchConnection (handshake reply vs. relay to the redirect target) for bypass/admin/database users with good, exhausted, expired, deleted or unknown records, unknown proxy methods, wrong server key and both transports; the admin API must answer only for admin UID with session id 0. Which UIDs a configuration admits is decided with states built by InitState from generated configurations (admin UID absent/present/all-zero, 0-3 bypass UIDs, user database or none) and genuine first packets for probe UIDs (all-zero, all-0xFF, configured ones, one-bit neighbours, database user, unknown) through dispatchConnection. 168 first packets forged without the server's public key (small-order / non-canonical ephemeral keys 0, 1, order-8 points, p-1, p, p+1, with and without bit 255; identity block sealed under the secret a permissive X25519 would yield; TLS and WebSocket carriers) must all be rejected; genuine packets with extreme client clocks (2^31 .. 2^62, unit confusions, +-293 years) are decided with integer arithmetic.",
     "level_note": "Flips outside the authenticated fields (server name, cipher list, ...) may legitimately still authenticate, so 'every flip is rejected' is deliberately not asserted. Keys and nonces are sampled.",
     "rule": "Flips: every bit of every byte of 4 base packets; distinct non-trivial = byte positions. Edits: rapid-drawn xor masks at <=8 positions, truncate/extend by 1..300, sealed-block swap between packets; non-trivial = the mutant still parses as a first packet. Window: offsets -185..185 s step 1 s and edge+-{0,1,500,999 ms} x server sub-second {0,1 ns,0.5 s,0.999999999 s}, both transports; non-trivial = within 2 s of an edge. Outcome/AdminGate: rapid-drawn tuples; distinct = distinct tuples.",
     "assumptions": ["tlsref.go parses ClientHellos correctly", "AES-GCM and X25519 are correct"],
@@ -289,7 +289,7 @@ CHECKS["C17"] = {
 CHECKS["C16"] = {
     "level": "exploration",
     "technique": "rapid-generated histories (sessions of several limited users, traffic with generated echo ratios, usage collection/commit separately, together and two rounds at once, session closures incl. the last, top-ups, exhaustion, expiry, deletion through the admin API on a bolt-backed or in-memory manager) on real client sessions against dispatchConnection in a synctest bubble; oracle = stored credit vs. bytes counted by the network tap",
-    "level_text": "The tap on every client<->server connection gives, per user and direction, the exact number of application-data bytes carried after the handshake. At every quiescent step the credit deducted so far must not exceed that volume (never charged twice, never for another user or direction) and must not be negative; after a completed usage upload with traffic stopped and the user continuously active it must equal it in both directions, also after a second upload; users whose credit is <= 0, who expired or were deleted must have all sessions closed after the upload. Sessions are closed by the client, by the server (proxy target unreachable) and by terminations; exactness is not demanded across a termination of the user (the statement limits it to users that stay active).",
+    "level_text": "The tap on every client<->server connection gives, per user and direction, the exact number of application-data bytes carried after the handshake. At every quiescent step the credit deducted so far must not exceed that volume (never charged twice, never for another user or direction) and must not be negative; after a completed usage upload with traffic stopped and the user continuously active it must equal it in both directions, also after a second upload; users whose credit is <= 0, who expired or were deleted must have all sessions closed after the upload. Sessions are closed by the client, by the server (proxy target unreachable) and by terminations; exactness is not demanded across a termination of the user (the statement limits it to users that stay active). A real-time sub-check counts usage from 1-8 goroutines (AddRx/AddTx as the connection goroutines do) while 1-3 upload loops run back to back, then requires exact equality after a final upload.",
     "level_note": "Absolute credit writes (top-up, exhaustion) are applied right after a flush of pending usage so that the additive bookkeeping formula is well defined; schedules inside a step are the Go runtime's.",
     "rule": "rapid draws 1..3 users, bolt or in-memory manager, 3..20 ops; traffic 1..70001 bytes with echo fraction 0, 30/255, 128/255 or 1; non-trivial = a collection and a commit (two upload rounds) overlapped in one step; distinct = distinct scenarios.",
     "assumptions": ["the tap sees every byte written to the client<->server connections"],
